@@ -199,7 +199,8 @@ def _one_run(ctx, case, shared, second=False):
     # ---- (d) skip reason ------------------------------------------------------------------------
     if out.name == "addSkip":
         reason = delivered.get("reason")
-        toks = [t for k, t, _ in env.raised if k in ("skip", "skipsub", "xfail", "uxs", "skip2")]
+        # the reason is the reported skip's own: what expectFailure() noted earlier in the run is not it
+        toks = [t for k, t, _ in env.raised if k in ("skip", "skipsub", "skip2")]
         toks += ["" for k, t, _ in env.raised if k == "skip_empty"]
         toks += [t for k, t, _ in env.raised if k.startswith("custom:")]
         if programs.is_decor_skip(program):
